@@ -904,6 +904,7 @@ class PeriodicCallback:
             self.callback_time = callback_time
         self.jitter = jitter
         self._running = False
+        self._in_progress = False
         self._timeout: object = None
 
     def start(self) -> None:
@@ -933,6 +934,14 @@ class PeriodicCallback:
     async def _run(self) -> None:
         if not self._running:
             return
+        if self._in_progress:
+            # The callback was restarted (stop() + start()) while an
+            # invocation was running and that invocation is not finished
+            # yet: skip this period instead of overlapping with it.
+            self._schedule_next()
+            return
+        timeout = self._timeout
+        self._in_progress = True
         try:
             val = self.callback()
             if val is not None and isawaitable(val):
@@ -940,7 +949,11 @@ class PeriodicCallback:
         except Exception:
             app_log.error("Exception in callback %r", self.callback, exc_info=True)
         finally:
-            self._schedule_next()
+            self._in_progress = False
+            if self._timeout is timeout:
+                self._schedule_next()
+            # else: stopped, or stopped and started again (which scheduled
+            # its own timeout), while the callback was running.
 
     def _schedule_next(self) -> None:
         if self._running:
